@@ -176,6 +176,10 @@ def hist_suite(run, name, harness_args, nontrivial_rule, known=None, use_driver=
     if r.rc != 0 or r.driver_rc != 0:
         run.tie_failures.append(dict(suite=name, what="harness or driver crashed / timed out", rc=r.rc,
                                      stderr=r.stderr, driver_rc=r.driver_rc, driver_err=r.driver_err))
+    for l in r.info:
+        if l.startswith("#KNOWN "):
+            fid = l.split(" ")[1]
+            run.known_hits[fid] = run.known_hits.get(fid, 0) + 1
     tainted = set()   # history start indexes whose spec comparison is suspended by a known finding
     def hstart(i):
         for j in range(i, -1, -1):
@@ -441,9 +445,66 @@ def check_C22(run):
                "same-mode reopen must succeed with an identical full observation (RAM<->RAM runs are also compared with model and spec)")
 
 
+EMPTY_ANSWERS = {"bool 0", "int 0", "list", "nodes", "node -"}
+
+
+def merged_before(r, idx):
+    for j in range(idx, -1, -1):
+        l = r.trace[j]
+        if l.startswith("#H "):
+            return False
+        if l.startswith("merge = ok"):
+            return True
+    return False
+
+
+def known_merge(r, idx, text):
+    """Known findings of Merge (C15/C16): F30 — a structure (or structure key) that is empty loses its existence after
+    Merge + reopen: the read answers 'not found' (err) where the specification gives an emptiness answer;
+    F14 — list records are re-applied / dropped by Merge."""
+    if not merged_before(r, idx):
+        return None
+    call = r.trace[idx].split(" = ")[0] if not text.startswith("#SPEC") else ""
+    m = __import__("re").search(r"impl=(.*) spec=(.*)$", text)
+    if m:
+        impl, spec = m.group(1), m.group(2)
+        op = call.split(" ")[0]
+        if DS_OF.get(op) == "list":
+            return "F14"
+        if impl == "err" and spec in EMPTY_ANSWERS:
+            return "F30"
+    if text.startswith("#SPEC") and ("lrange" in text or "lsize" in text):
+        return "F14"
+    return None
+
+
+def check_C15(run):
+    check_hist_generic(run, [("merge", "merge", 250, 5000, RULE_HIST + "; profile merge: key/value (TTL, deletes), sets and sorted sets in "
+                              "HintKeyValAndRAMIdxMode with small segments, Merge after 30% of the transactions (repeatedly), more "
+                              "writes, reopens; observation before/after every Merge and reopen; Merge is replayed by the model "
+                              "(Merge.v) and is the identity of the specification"),
+                             ("merge1", "merge1", 150, 3000, RULE_HIST + "; the same in HintKeyAndRAMIdxMode (values read back through "
+                              "the index hints Merge rewrites)"),
+                             ("mergelist", "mergelist", 100, 2000, RULE_HIST + "; profile mergelist: lists included — impl = model must "
+                              "hold; spec failures on list calls after a Merge are attributed to known finding F14")],
+                       known=known_merge)
+
+
+def check_C16(run):
+    n = 25 if run.tier == "quick" else 500
+    r = hist_suite(run, "mergecrash", ["hist", "-n", n, "-x", "mergecrash"],
+                   "a workload over key/value data, sets and sorted sets (12 transactions, small segments) followed by Merge with "
+                   "every file mutation recorded; for every mutation point inside Merge (create, truncate, every record write "
+                   "with torn prefixes, sync, remove) the directory image is rebuilt, opened with the real Open and observed: the "
+                   "observation must equal the one taken before Merge.  Differences of class F30 (an empty structure answers "
+                   "'not found') are counted as the known finding; anything else is a violation", use_driver=False)
+    crash_cov(run, r)
+
+
 CHECKS = {
     "C21": check_C21, "C01": check_C01, "C03": check_C03, "C04": check_C04, "C05": check_C05, "C06": check_C06,
     "C07": check_C07, "C08": check_C08, "C12": check_C12, "C13": check_C13,
+    "C15": check_C15, "C16": check_C16,
     "C09": check_C09, "C10": check_C10, "C11": check_C11, "C19": check_C19, "C20": check_C20, "C22": check_C22,
 }
 
